@@ -68,13 +68,13 @@ def pytest_configure(config):
         if not (isinstance(x, (int, Fr)) and isinstance(y, (int, Fr))) or isinstance(x, bool) or isinstance(y, bool):
             return
         _count("C13:points-checked")
-        for inp, got in ((x, self_._x), (y, self_._y)):
+        for inp, got in ((x, self_[0]), (y, self_[1])):
             if not O.is_wellformed_fraction(got):
                 _violate("C13", "Point2D(%r, %r) stores the malformed coordinate %r" % (x, y, got))
             elif Fr(inp).denominator <= 10 ** 9 and got != Fr(inp):
                 _violate("C13", "Point2D(%r, %r) stores %r" % (x, y, got))
 
-    MON.attach(pol.Point2D, "__init__", post=post_point, label="Point2D.__init__")
+    MON.attach_path(pol, "Point2D", "__init__", post=post_point, label="Point2D.__init__")
 
     def pre_split(args, kwargs):
         jordan = args[0]
@@ -97,7 +97,7 @@ def pytest_configure(config):
         for msg, det in P.judge_split(before, pairs, args[0], exact, exc)[:1]:
             _violate("C15", "split%s: %s" % ([(i, str(n)) for i, n in pairs][:6], msg))
 
-    MON.attach(jc.JordanCurve, "split", pre=pre_split, post=post_split, label="JordanCurve.split")
+    MON.attach_path(jc, "JordanCurve", "split", pre=pre_split, post=post_split, label="JordanCurve.split")
 
     def post_inter(token, args, kwargs, result, exc):
         if exc is not None:
@@ -113,7 +113,7 @@ def pytest_configure(config):
         _count("C14:intersections-checked")
         C14.judge_entries(_FakeCase("C14"), "intersection", result, ca, cb, 1e-6 * L, rational)
 
-    MON.attach(jc.JordanCurve, "intersection", post=post_inter, label="JordanCurve.intersection")
+    MON.attach_path(jc, "JordanCurve", "intersection", post=post_inter, label="JordanCurve.intersection")
 
 
 def pytest_sessionfinish(session, exitstatus):
